@@ -282,7 +282,7 @@ def run_program(ctx, decs, encs, ids, B, D, mtv, origin, name=None, K=None, loca
         spec = dict(origin=origin, name=name, ids=ids if len(ids) < 60 else ids[:60], mtv=mtv, counts=list(counts), bits=bits,
                     compressed=comp, hex=msg.bytes.hex())
         compare_message(ctx, decs, encs, msg.bytes, msg.ids, spec, do_encode=(ai % 2 == 0))
-        if origin == 'shape' and ai == 0 and not local:
+        if origin == 'shape' and ai == 0 and not local and ids:
             cli_compile(ctx, ids, mtv, msg.bytes, spec)
     return produced
 
